@@ -509,11 +509,11 @@ class _ChildrenList(_TaskList):
         :param reverse: reverse sort
         """
         if type(key) is str:
-            self._list = sorted(self._list, key=lambda x: x.__getattribute__(key), reverse=reverse)
+            self._list[:] = sorted(self._list, key=lambda x: x.__getattribute__(key), reverse=reverse)
         elif type(key) is list or type(key) is tuple or type(key) is set:
-            self._list = sorted(self._list,
-                                key=lambda x: '-'.join([str(x.__getattribute__(k)) for k in key]),
-                                reverse=reverse)
+            self._list[:] = sorted(self._list,
+                                   key=lambda x: '-'.join([str(x.__getattribute__(k)) for k in key]),
+                                   reverse=reverse)
         else:
             raise RuntimeError(f"Unsupported key type {type(key)}")
 
@@ -535,7 +535,7 @@ class _ChildrenList(_TaskList):
             new_list.append(ch)
             _all.remove(ch)
 
-        self._list = new_list + _all
+        self._list[:] = new_list + _all
         self.__setter(self._list)
 
 
